@@ -117,12 +117,13 @@ TInts ==
   /\ E.ev = "ints"
   /\ LET bad(ty) == Sel(E.vals, LAMBDA i : E[ty][i] # <<>> /\ ~IntOk(W(E.vals[i], 8), E[ty][i]))
          missing == Sel(E.vals, LAMBDA i : E.u64[i] = <<>> \/ E.usize[i] = <<>>)
-         tys == <<"u8", "u16", "u32", "u64", "usize">>
-         allbad == UNION {bad(tys[k]) : k \in 1..5} \cup missing
+         \* "_bytesink": the same constant delivered to a sink that implements byte() only
+         tys == <<"u8", "u16", "u32", "u64", "usize", "u16_bytesink", "u32_bytesink", "u64_bytesink", "usize_bytesink">>
+         allbad == UNION {bad(tys[k]) : k \in 1..Len(tys)} \cup missing
      IN Judge("C08", allbad = {}, [l |-> l, run |-> E.run, what |-> "integer_constant", sig |-> "ints/encoding",
                                    v |-> IF allbad = {} THEN <<>> ELSE E.vals[First(allbad)],
                                    via |-> IF allbad = {} THEN "" ELSE (LET i == First(allbad) IN
-                                            CHOOSE t \in {"u8", "u16", "u32", "u64", "usize"} : i \in bad(t) \/ i \in missing),
+                                            CHOOSE t \in {tys[k] : k \in 1..Len(tys)} : i \in bad(t) \/ i \in missing),
                                    count |-> Cardinality(allbad)])
 
 ---------------------------------------------------------------------------
